@@ -2,6 +2,8 @@ package main
 
 import (
 	"fmt"
+	"go/constant"
+	"go/token"
 	"go/types"
 	"sort"
 	"strings"
@@ -66,10 +68,25 @@ func (s *State) runBlock(b, from *ssa.BasicBlock) {
 			newVals[k].T = p.Type()
 		}
 	}
+	hasRange := false
 	for k, p := range phis {
 		s.env[p] = newVals[k]
 		if p.Comment != "" {
 			s.names[p.Comment] = nameBinding{p, false}
+			if p.Comment == "rangeindex" {
+				hasRange = true
+			}
+		}
+	}
+	if _, isHdr := c.loopHdr[b]; isHdr && top {
+		// `iter` (the number of completed iterations) in a three-clause counting loop is its counter: the one
+		// header phi that starts at 0 and is incremented by 1 on every back edge. A range loop rewritten as
+		// `for i := 0; i < len(xs); i++` (or back) keeps the meaning of the invariants written with `iter`.
+		if hasRange {
+			delete(s.names, "itercount")
+		} else if cp := countingPhi(phis); cp != nil {
+			s.names["itercount"] = nameBinding{cp, false}
+			delete(s.names, "rangeindex")
 		}
 	}
 	if n, isHdr := c.loopHdr[b]; isHdr && top {
@@ -1413,4 +1430,40 @@ func (s *State) callSiteAssertsNamed(site ssa.Instruction, key string, names []s
 		// named by clause (all call sites of the callee aggregate under one name)
 		s.oblige(fmt.Sprintf("callsite:%s", key), site, i+1, v.S, "at every call of "+key+": "+ca.Clause.Src, true)
 	}
+}
+
+// countingPhi returns the unique integer phi of a loop header with one incoming constant 0 and every other
+// incoming value equal to phi+1, or nil.
+func countingPhi(phis []*ssa.Phi) *ssa.Phi {
+	var found *ssa.Phi
+	for _, p := range phis {
+		if kindOf(p.Type()) != kInt {
+			continue
+		}
+		zero, inc, other := 0, 0, 0
+		for _, e := range p.Edges {
+			if c, ok := e.(*ssa.Const); ok && c.Value != nil && c.Value.Kind() == constant.Int {
+				if v, exact := constant.Int64Val(c.Value); exact && v == 0 {
+					zero++
+					continue
+				}
+			}
+			if bo, ok := e.(*ssa.BinOp); ok && bo.Op == token.ADD && bo.X == ssa.Value(p) {
+				if c, ok := bo.Y.(*ssa.Const); ok && c.Value != nil && c.Value.Kind() == constant.Int {
+					if v, exact := constant.Int64Val(c.Value); exact && v == 1 {
+						inc++
+						continue
+					}
+				}
+			}
+			other++
+		}
+		if zero == 1 && inc >= 1 && other == 0 {
+			if found != nil {
+				return nil
+			}
+			found = p
+		}
+	}
+	return found
 }
